@@ -8,9 +8,11 @@ import TensorModel.Ext.Reduce
 import TensorModel.Ext.Mask
 import TensorModel.Ext.Assemble
 import TensorModel.Ext.Compat
+import TensorModel.Ext.MultIter
+import TensorModel.Ext.MaskOps
 /-! Registry of operation families (one import + one list entry per family). -/
 namespace TM
 
-def families : List Family := [minMaxFamily, enginesFamily, historyFamily, linalgFamily, serialFamily, reduceFamily, maskFamily, assembleFamily, compatFamily]
+def families : List Family := [minMaxFamily, enginesFamily, historyFamily, linalgFamily, serialFamily, reduceFamily, maskFamily, assembleFamily, compatFamily, multIterFamily, maskOpsFamily]
 
 end TM
